@@ -16,6 +16,7 @@ import (
 	"fmt"
 	"io"
 	"io/fs"
+	"log"
 	"math/rand"
 	"runtime"
 	"sort"
@@ -91,8 +92,10 @@ type Result struct {
 
 // ---------------------------------------------------------------- state
 
-type exitSentinel struct{ code int }
-type budgetSentinel struct{}
+var (
+	exited, budgetHit, returned bool
+	exitCode                    int
+)
 
 var (
 	cfg       Config
@@ -152,28 +155,34 @@ func Run(c Config, main func()) (res Result) {
 	for _, f := range resets {
 		f()
 	}
-	defer func() {
-		if r := recover(); r != nil {
-			switch v := r.(type) {
-			case exitSentinel:
-				res.Exit = v.code
-			case budgetSentinel:
-				res.Budget = true
-				record("BUDGET", "", int64(ticks))
-			default:
+	log.SetOutput(Stderr)
+	log.SetFlags(0)
+	exited, exitCode, budgetHit, returned = false, 0, false, false
+	// The program runs on its own goroutine so that Exit and the step budget can
+	// end it with runtime.Goexit, which a recover() in the code under test cannot
+	// swallow. The harness blocks until it is done: nothing runs concurrently.
+	done := make(chan struct{})
+	go func() {
+		defer close(done)
+		defer func() {
+			if r := recover(); r != nil {
 				res.Panic = fmt.Sprint(r)
 				record("PANIC", res.Panic, 0)
 			}
-		}
-		res.Events = events
-		res.Ticks = ticks
-		res.OrdersUsed = ordersUse
-		res.Reads = reads
-		runtime.KeepAlive(ballast)
-		ballast = nil
+		}()
+		main()
+		returned = true
 	}()
-	main()
-	res.Returned = true
+	<-done
+	res.Exit = exitCode
+	res.Returned = returned
+	res.Budget = budgetHit
+	res.Events = events
+	res.Ticks = ticks
+	res.OrdersUsed = ordersUse
+	res.Reads = reads
+	runtime.KeepAlive(ballast)
+	ballast = nil
 	return
 }
 
@@ -261,7 +270,8 @@ func (*InStream) Read(p []byte) (int, error) {
 
 func Exit(code int) {
 	record("EXIT", "", int64(code))
-	panic(exitSentinel{code})
+	exited, exitCode = true, code
+	runtime.Goexit()
 }
 
 func fileErr(op, path, kind string) error {
@@ -327,6 +337,9 @@ func (f *SimFile) Read(p []byte) (int, error) {
 	return n, nil
 }
 func (f *SimFile) Close() error { return nil }
+func (f *SimFile) Stat() (fs.FileInfo, error) {
+	return simInfo{name: f.path, size: int64(len(f.data)), dir: f.err == "EISDIR"}, nil
+}
 func (f *SimFile) Name() string { return f.path }
 
 // Stat / Lstat: enough of os.FileInfo for existence and kind checks. A file
@@ -398,7 +411,11 @@ func Tick() {
 		runtime.GC()
 	}
 	if ticks > budget {
-		panic(budgetSentinel{})
+		if !budgetHit {
+			budgetHit = true
+			record("BUDGET", "", int64(ticks))
+		}
+		runtime.Goexit()
 	}
 }
 
